@@ -93,6 +93,11 @@ void __sanitizer_cov_trace_pc_guard_init(uint32_t *a, uint32_t *b) { (void)a; (v
 static void lock_hook(int lock)
 {
     if (G.in_isr) return;
+    if (lock && DRV.lock_depth == 1 && G.in_op) {
+        /* the instant before the (outermost) lock is taken is a preemption point of its own: the value of an unlocked read may
+         * already sit in a local variable, so it does not commute with the interrupt (found by a seeded change, see DESIGN.md) */
+        DRV.lock_depth = 0; point(&Node.Tmr); DRV.lock_depth = 1;
+    }
     if (lock) { if (DRV.lock_depth == 1) G.lock_tick = W_NOW; }
     else if (DRV.lock_depth == 0 && G.in_op) check_events("at lock release");
 }
